@@ -135,7 +135,7 @@ def cache_sentinel(ctx):
             ok = all(t in safe for t in tested)
             ctx.ob("R15.5", "%s[cache validity decided by %s]" % (q, "+".join(tested)), ok, "fields cleared by every invalidation site: %s" % sorted(safe), st.lineno,
                    "append/insert/extend/del clear the total only: after point(t); path.line(...); point(t) the fractions are those of the old segment list")
-    ctx.need(n >= 3, "R15.5", "cache validity tests not found (%d)" % n)
+    ctx.need(n >= 1, "R15.5", "cache validity tests not found (%d)" % n)
 
 
 def cache_error(ctx):
